@@ -72,7 +72,7 @@ class _Subst(ast.NodeTransformer):
     visit_ClassDef = visit_FunctionDef
 
 
-def aliases(fnode, final_attrs=None):
+def aliases(fnode, final_attrs=None, only=None):
     """{local: path expression} for the aliases of *fnode* that qualify.
     With *final_attrs* (a set of attribute names that are only ever assigned in `__init__` methods) only `x = self.<final>` qualifies:
     such an attribute denotes the same object for the whole life of the instance, so the local and the path are interchangeable."""
@@ -92,7 +92,7 @@ def aliases(fnode, final_attrs=None):
     for w in walk_no_defs(fnode):
         if isinstance(w, ast.Assign) and len(w.targets) == 1 and isinstance(w.targets[0], ast.Name) and _path(w.value) and not isinstance(w.value, ast.Name):
             v = w.targets[0].id
-            if counts.get(v) != 1 or v in loop_targets:
+            if counts.get(v) != 1 or v in loop_targets or (only is not None and v not in only):
                 continue
             if final_attrs is not None:
                 params_ = {x.arg for x in fnode.args.posonlyargs + fnode.args.args + fnode.args.kwonlyargs}
@@ -114,13 +114,13 @@ def aliases(fnode, final_attrs=None):
     return out, bind
 
 
-def apply(fnode, final_attrs=None):
+def apply(fnode, final_attrs=None, only=None):
     """Return a normalised deep copy of *fnode*, or None when nothing changes."""
-    m, _ = aliases(fnode, final_attrs)
+    m, _ = aliases(fnode, final_attrs, only)
     if not m:
         return None
     new = clone(fnode)
-    m2, bind = aliases(new, final_attrs)
+    m2, bind = aliases(new, final_attrs, only)
     # resolve chains (alias of an alias) a few levels
     for _ in range(3):
         changed = False
@@ -131,6 +131,75 @@ def apply(fnode, final_attrs=None):
                 changed = True
         if not changed:
             break
+    tr = _Subst(m2, set(bind.values()))
+    new.body = [tr.visit(s) for s in new.body]
+    ast.fix_missing_locations(new)
+    return new
+
+
+def _pure_test(e):
+    if isinstance(e, (ast.Name, ast.Constant)):
+        return True
+    if isinstance(e, ast.Attribute):
+        return _pure_test(e.value)
+    if isinstance(e, ast.Compare):
+        return _pure_test(e.left) and all(_pure_test(c) for c in e.comparators)
+    if isinstance(e, ast.BoolOp):
+        return all(_pure_test(v) for v in e.values)
+    if isinstance(e, ast.UnaryOp) and isinstance(e.op, ast.Not):
+        return _pure_test(e.operand)
+    if isinstance(e, ast.Tuple):
+        return all(_pure_test(v) for v in e.elts)
+    if isinstance(e, ast.Call) and isinstance(e.func, ast.Name) and e.func.id in ('len', 'isinstance', 'bool') and not e.keywords:
+        return all(_pure_test(a) for a in e.args)
+    return False
+
+
+def predicates(fnode):
+    """{local: expression} for locals that merely name a test:
+    (1) `v = isinstance(x, T)` with x a parameter that is never re-bound or a local bound once (the answer cannot change);
+    (2) `v = <side-effect free test>` whose only read is the test of the `if` statement that immediately follows the binding.
+    Reading `if v:` as `if <expression>:` is then exact."""
+    counts = _stores(fnode)
+    params = {x.arg for x in fnode.args.posonlyargs + fnode.args.args + fnode.args.kwonlyargs}
+    reads = {}
+    for w in walk_no_defs(fnode):
+        if isinstance(w, ast.Name) and isinstance(w.ctx, ast.Load):
+            reads.setdefault(w.id, []).append(w)
+    out, bind = {}, {}
+    for body_owner in walk_no_defs(fnode):
+        for fld in ('body', 'orelse', 'finalbody'):
+            body = getattr(body_owner, fld, None)
+            if not isinstance(body, list):
+                continue
+            for i, w in enumerate(body):
+                if not (isinstance(w, ast.Assign) and len(w.targets) == 1 and isinstance(w.targets[0], ast.Name)):
+                    continue
+                v = w.targets[0].id
+                if counts.get(v) != 1 or v in params or not _pure_test(w.value) or isinstance(w.value, (ast.Name, ast.Constant, ast.Attribute)):
+                    continue
+                val = w.value
+                if isinstance(val, ast.Call) and isinstance(val.func, ast.Name) and val.func.id == 'isinstance' and len(val.args) == 2 and isinstance(val.args[0], ast.Name):
+                    x = val.args[0].id
+                    stable = (x in params and counts.get(x, 0) <= 2) or (x not in params and counts.get(x, 0) == 1)
+                    if stable and all(isinstance(n_, (ast.Name, ast.Attribute, ast.Tuple, ast.Load)) for n_ in ast.walk(val.args[1])):
+                        out[v] = val
+                        bind[v] = id(w.targets[0])
+                        continue
+                nxt = body[i + 1] if i + 1 < len(body) else None
+                rd = reads.get(v, [])
+                if isinstance(nxt, ast.If) and len(rd) == 1 and any(x is rd[0] for x in ast.walk(nxt.test)):
+                    out[v] = val
+                    bind[v] = id(w.targets[0])
+    return out, bind
+
+
+def apply_predicates(fnode):
+    m, _ = predicates(fnode)
+    if not m:
+        return None
+    new = clone(fnode)
+    m2, bind = predicates(new)
     tr = _Subst(m2, set(bind.values()))
     new.body = [tr.visit(s) for s in new.body]
     ast.fix_missing_locations(new)
